@@ -28,14 +28,27 @@
   * `if_fragment`               `visit_if_statement`: the condition block branches to the consequence or past it;
   * `return_of_completion`      `finalize_completion_values` on a start block that has a completion value turns it
                                 into `return value` (the expression-statement program shape);
-  * `compile_correct_partial`   END-TO-END for the fragment  P ::= `o.p`  with `o` an object id and `p` a readable
-                                property (a program that is a single property read): `build` → IR → `IrSem.run`
-                                returns the `Spec.Sem` value in every world.
-  The composition of the per-construct lemmas over arbitrary expression trees (induction over the monadic `walkExpr`)
-  and the statement level (switch, break, let/const) are NOT proved: they are decided per program by the streams
-  `c01-ir` (IrSem on the REAL IR = Spec.Sem) and `spec-c01` (the real C++ executed = Spec.Sem).
+  * `compile_correct_partial`   END-TO-END for the STRAIGHT-LINE fragment
+                                    P ::= e        e ::= integer | true | false | o.p | unary-op e | e ⊕ e
+                                (⊕ every binary operator except `&&`/`||`, unary-op every unary operator; `o` an object id
+                                of the document, `p` a property of its class of non-void type — `Straight wc e`):
+                                whenever the model compiler builds code for the binding, in EVERY world (stored values
+                                typed) where `Spec.Sem` defines the value at the property type, `IrSem` of the built IR
+                                returns that value.  Rests on `QV.Proofs.SemStraight.walk_straight` — by induction on the
+                                expression over the monadic `walkExpr`, with the builder invariant `Grows` (statements only
+                                appended to the open current block, fresh locals, nothing else touched): the walk returns a
+                                folded constant (integer within 64 bits or bool: `fold_const_binary/unary` = Spec.Sem) or a
+                                fresh local, and executing the appended statements in any state leaves the Spec.Sem value
+                                there and preserves all earlier locals, the world and the trace; `binop_dyn_not_cint`
+                                (a typed operand never yields an untyped constant) closes the loop with `emit_sound`.
+    `compile_correct_property_read`  the earlier special case `P ::= o.p` with the built IR written out
+                                (`build_property_read`).
+  NOT proved: expressions with variables in scope, float/string/null literals, calls, casts, `&&`/`||`/ternary inside the
+  induction (their CFG fragments are proved separately above), and the statement level (if/switch/break/let/const/return
+  other than the single expression statement): decided per program by the streams `c01-ir` (IrSem on the REAL IR =
+  Spec.Sem) and `spec-c01` (the real C++ executed = Spec.Sem).
 -/
-import QV.Proofs.SemVisit
+import QV.Proofs.SemStraight
 import QV.Model.CxxBody
 import QV.Props.C03
 
@@ -73,22 +86,12 @@ def compile_correct_full_statement : Prop :=
 
 /-! ### (1) constant operands -/
 
-theorem tokOf_toOp (op : BinaryOp) : (QV.Spec.Sem.tokOf op).toOp = some op := by
-  cases op with
-  | arith o => cases o <;> rfl
-  | bitwise o => cases o <;> rfl
-  | shift o => cases o <;> rfl
-  | logical o => cases o <;> rfl
-  | cmp o => cases o <;> rfl
+theorem tokOf_toOp (op : BinaryOp) : (QV.Spec.Sem.tokOf op).toOp = some op :=
+  QV.Proofs.SemFold.tokOf_toOp op
 
 theorem binop_cint (F : FloatOps) (op : BinaryOp) (hlog : ∀ lop, op ≠ .logical lop) (a c : Int) :
-    binop F op (.cint a) (.cint c) = QV.Spec.Sem.constBinary F op a c := by
-  cases op with
-  | logical lop => exact absurd rfl (hlog lop)
-  | arith o => simp [binop, QV.Spec.Sem.unify]
-  | bitwise o => simp [binop, QV.Spec.Sem.unify]
-  | shift o => simp [binop]
-  | cmp o => simp [binop, QV.Spec.Sem.unify]
+    binop F op (.cint a) (.cint c) = QV.Spec.Sem.constBinary F op a c :=
+  QV.Proofs.SemFold.binop_cint F op hlog a c
 
 /-- folding of a binary operator on integer constants: no code is emitted and the operand produced denotes the
     value the reference semantics gives to the operator application -/
@@ -96,56 +99,15 @@ theorem fold_agrees_spec (ic : ICtx) (L : IrSem.Locals) (F : FloatOps) (env : En
     (hlog : ∀ lop, op ≠ .logical lop) (a c : Int) (ha : QV.Spec.ConstSem.representable a = true)
     (res : Operand) (b' : Builder)
     (h : visitBinaryExpression F env b op (.const (.integer a)) (.const (.integer c)) = .ok (res, b')) :
-    b' = b ∧ ∃ v, evalOperand ic L res = some v ∧ binop F op (.cint a) (.cint c) = some v := by
-  obtain ⟨hb, cst, hres, _, hval⟩ :=
-    QV.Props.C03.fold_binary_sound F env b (QV.Spec.Sem.tokOf op) op (tokOf_toOp op) hlog (.integer a) (.integer c) ha res b' h
-  refine ⟨hb, ?_⟩
-  rw [binop_cint F op hlog]
-  subst hres
-  simp only [QV.Proofs.ConstFold.valOf] at hval
-  unfold QV.Spec.Sem.constBinary
-  rw [hval]
-  cases cst with
-  | integer v => simp [evalOperand]
-  | bool v => simp [evalOperand]
-  | _ =>
-    exfalso
-    cases op with
-    | logical lop => exact absurd rfl (hlog lop)
-    | arith o =>
-      cases o <;> simp [QV.Spec.Sem.tokOf, QV.Spec.Sem.tokOfArith, QV.Spec.ConstSem.binary, QV.Spec.ConstSem.binInt,
-        QV.Spec.ConstSem.intRes] at hval <;> (repeat' split at hval) <;> simp_all
-    | bitwise o =>
-      cases o <;> simp [QV.Spec.Sem.tokOf, QV.Spec.Sem.tokOfBit, QV.Spec.ConstSem.binary, QV.Spec.ConstSem.binInt] at hval
-    | shift o =>
-      cases o <;> simp [QV.Spec.Sem.tokOf, QV.Spec.Sem.tokOfShift, QV.Spec.ConstSem.binary, QV.Spec.ConstSem.binInt,
-        QV.Spec.ConstSem.intRes] at hval <;> (repeat' split at hval) <;> simp_all
-    | cmp o =>
-      cases o <;> simp [QV.Spec.Sem.tokOf, QV.Spec.Sem.tokOfCmp, QV.Spec.ConstSem.binary, QV.Spec.ConstSem.binInt,
-        QV.Spec.ConstSem.cmpRes, QV.Spec.ConstSem.isCmp] at hval
+    b' = b ∧ ∃ v, evalOperand ic L res = some v ∧ binop F op (.cint a) (.cint c) = some v :=
+  QV.Proofs.SemFold.fold_agrees_spec ic L F env b op hlog a c ha res b' h
 
 /-- the same for unary operators on an integer constant -/
 theorem fold_unary_agrees_spec (ic : ICtx) (L : IrSem.Locals) (F : FloatOps) (b : Builder) (op : UnaryOp) (a : Int)
     (ha : QV.Spec.ConstSem.representable a = true) (res : Operand) (b' : Builder)
     (h : visitUnaryExpression F b op (.const (.integer a)) = .ok (res, b')) :
-    b' = b ∧ ∃ v, evalOperand ic L res = some v ∧ unop F op (.cint a) = some v := by
-  cases op with
-  | plus =>
-    simp [visitUnaryExpression, evalUnaryArith] at h
-    obtain ⟨rfl, rfl⟩ := h
-    exact ⟨rfl, _, rfl, rfl⟩
-  | minus =>
-    simp only [visitUnaryExpression, evalUnaryArith] at h
-    rcases QV.Proofs.ConstFold.checked_cases (-a) with ⟨hr, hc, _⟩ | ⟨hr, hc, _⟩
-    · simp [hc] at h
-      obtain ⟨rfl, rfl⟩ := h
-      exact ⟨rfl, _, rfl, by simp [unop, hr]⟩
-    · simp [hc] at h
-  | bitNot =>
-    simp [visitUnaryExpression, evalUnaryBitwise] at h
-    obtain ⟨rfl, rfl⟩ := h
-    exact ⟨rfl, _, rfl, rfl⟩
-  | logNot => simp [visitUnaryExpression, evalUnaryLogical] at h
+    b' = b ∧ ∃ v, evalOperand ic L res = some v ∧ unop F op (.cint a) = some v :=
+  QV.Proofs.SemFold.fold_unary_agrees_spec ic L F b op a ha res b' h
 
 theorem representable_of_inI32 {v : Int} (h : QV.Spec.Sem.inI32 v = true) : QV.Spec.ConstSem.representable v = true := by
   simp only [QV.Spec.Sem.inI32, Bool.and_eq_true, decide_eq_true_eq] at h
@@ -225,9 +187,8 @@ theorem emit_sound (c : ICtx) (b : Builder) (blk : BasicBlock) (ty : TypeKind) (
     simp [upd, hm]
 
 theorem unop_not_cint (F : FloatOps) (op : UnaryOp) (a v : Val) (ha : isCint a = false) (h : unop F op a = some v) :
-    isCint v = false := by
-  cases op <;> cases a <;> simp_all [unop, isCint, QV.Spec.Sem.mkUintWrap] <;>
-    (first | (subst h; rfl) | (have := mkInt_eq h; subst this; rfl))
+    isCint v = false :=
+  QV.Proofs.SemFold.unop_not_cint F op a v ha h
 
 /-- dynamic unary operator: the emitted statement computes `Spec.Sem.unop` of the operand's value -/
 theorem unary_correct (c : ICtx) (b : Builder) (blk : BasicBlock) (op : UnaryOp) (a res : Operand) (b' : Builder)
@@ -422,8 +383,8 @@ theorem return_of_completion (code : CodeBody) (startRef : Nat) (start : BasicBl
     (hb : code.blocks[startRef]? = some start) (ht : start.terminator = none) (hc : start.completionValue = some a) :
     finalizeCompletionValues code startRef =
       ({ code with blocks := code.blocks.set startRef { start with completionValue := none, terminator := some (.ret a) } },
-       none) := by
-  simp [finalizeCompletionValues, hb, ht, hc, setBlock]
+       none) :=
+  QV.Proofs.SemFold.return_of_completion code startRef start a hb ht hc
 
 set_option linter.unusedSimpArgs false in
 /-- the IR the model compiler builds for the binding `o.p` -/
@@ -450,17 +411,13 @@ theorem spec_member_ident (c : QV.Spec.Sem.Ctx) (o p : String) (s : QV.Spec.Sem.
     QV.Spec.Sem.evalExpr c (.member (.ident o) p) s =
       match QV.Spec.Sem.resolveIdent c o s with
       | some r => (match QV.Spec.Sem.memberRef c r p s with | some (.val v) => some (v, s) | _ => none)
-      | none => none := by
-  rw [QV.Spec.Sem.evalExpr.eq_def]
-  simp only
-  rw [QV.Spec.Sem.evalRef.eq_def]
-  simp only
-  cases QV.Spec.Sem.resolveIdent c o s <;> rfl
+      | none => none :=
+  QV.Proofs.SemFold.spec_member_ident c o p s
 
 /-- C01, proved END-TO-END for the fragment  P ::= `o.p`  (`o` an object id of the document, `p` a readable property of
     its class whose stored value is not an untyped constant): the IR built by the model compiler, executed in ANY world,
     returns the value the reference semantics gives to the source expression. -/
-theorem compile_correct_partial (wc : QV.Model.Ctx) (sc : QV.Spec.Sem.Ctx) (ic : ICtx) (hag : CtxAgree wc sc ic)
+theorem compile_correct_property_read (wc : QV.Model.Ctx) (sc : QV.Spec.Sem.Ctx) (ic : ICtx) (hag : CtxAgree wc sc ic)
     (o p cls : String) (ci : ClassInfo) (pinfo : PropInfo)
     (h1 : wc.objects.find? (·.1 = o) = some (o, cls))
     (h2 : wc.env.findClass cls = some ci)
@@ -493,7 +450,101 @@ theorem compile_correct_partial (wc : QV.Model.Ctx) (sc : QV.Spec.Sem.Ctx) (ic :
     rw [coerceTo_of_not_cint _ _ hnc] at hspec
     exact Option.some.inj hspec
 
+/-! ### the straight-line fragment, end to end -/
+
+open QV.Proofs.SemWalk QV.Proofs.SemStraight
+set_option linter.unusedSimpArgs false
+
+theorem agree_of_ctxAgree {wc : Ctx} {sc : QV.Spec.Sem.Ctx} {ic : ICtx} (h : CtxAgree wc sc ic) :
+    Agree wc sc ic := ⟨h.host, h.float, h.objects⟩
+
+/-- C01, END-TO-END for the straight-line fragment: P ::= e;  e ::= integer | true | false | o.p | unary e | e ⊕ e
+    (⊕ any binary operator except `&&`/`||`; `o` an object id, `p` a property of its class of non-void type).
+    If the model compiler builds code for the binding `e`, then in EVERY world (whose stored values are typed) where the
+    reference semantics defines the value of `e` at the property type, executing the built IR returns that value. -/
+theorem compile_correct_partial (wc : Ctx) (sc : QV.Spec.Sem.Ctx) (ic : ICtx) (hag : CtxAgree wc sc ic)
+    (e : Expr) (hs : Straight wc e) (code : CodeBody)
+    (hcode : (build wc false (.stmt (.expr e))).code = some code)
+    (w : World) (hw : ∀ x q u, w.prop x q = some u → isCint u = false) (t : Ty) (v : Val)
+    (hspec : QV.Spec.Sem.bindingValue sc (.stmt (.expr e)) w t = some v) :
+    IrSem.bindingValue ic code w t = some v := by
+  unfold build at hcode
+  simp only [walkProgram] at hcode
+  have hrun := run_expr_stmt wc e {}
+  cases hw0 : (walkRvalue wc e).run {} with
+  | mk r s1 =>
+    rw [hw0] at hrun
+    cases r with
+    | none =>
+      simp only at hrun
+      simp only [StateT.run, OptionT.run] at hrun hcode
+      rw [hrun] at hcode
+      simp at hcode
+    | some op =>
+      simp only at hrun
+      simp only [StateT.run, OptionT.run] at hrun hcode
+      rw [hrun] at hcode
+      simp only at hcode
+      have hopen0 : OpenAt ({} : WState).b {} := ⟨rfl, rfl⟩
+      obtain ⟨ss, _, hg, hok, hsound⟩ :=
+        walk_straight wc sc ic (agree_of_ctxAgree hag) e hs {} s1 op hw0 rfl ⟨{}, hopen0⟩
+      obtain ⟨blk, hb, ht, hbl⟩ := hg.blocks
+      have hb0 : blk = {} := by
+        have : ({} : WState).b.code.blocks[({} : WState).b.currentRef]? = some ({} : BasicBlock) := rfl
+        rw [this] at hb
+        injection hb with hb
+        exact hb.symm
+      subst hb0
+      have hblocks : s1.b.code.blocks = [{ statements := ss }] := by
+        rw [hbl]; rfl
+      have hcur : s1.b.currentRef = 0 := by simp [Builder.currentRef, hblocks]
+      -- the expression statement records the completion value, `finalize_completion_values` turns it into `return`
+      have hves : (visitExpressionStatement s1.b op).code.blocks =
+          [{ statements := ss, completionValue := some (ensureConcreteString op) }] ∧
+          (visitExpressionStatement s1.b op).code.locals = s1.b.code.locals ∧
+          (visitExpressionStatement s1.b op).currentRef = 0 := by
+        simp [visitExpressionStatement, Builder.setCompletionValue, Builder.blockHasTerminator, Builder.modifyBlock, hcur,
+          hblocks, Builder.currentRef]
+      obtain ⟨hvb, hvl, hvc⟩ := hves
+      have hfin := return_of_completion (visitExpressionStatement s1.b op).code 0
+        { statements := ss, completionValue := some (ensureConcreteString op) } (ensureConcreteString op)
+        (by rw [hvb]; rfl) rfl rfl
+      rw [hvc, hfin] at hcode
+      simp only [Option.some.injEq] at hcode
+      subst hcode
+      -- the reference semantics
+      simp only [QV.Spec.Sem.bindingValue, QV.Spec.Sem.run, QV.Spec.Sem.runStmt] at hspec
+      rw [QV.Spec.Sem.execStmt.eq_def] at hspec
+      simp only at hspec
+      cases hse : QV.Spec.Sem.evalExpr sc e { w := w } with
+      | none => simp [hse] at hspec
+      | some p =>
+        obtain ⟨val, sst'⟩ := p
+        simp only [hse, Option.map_some, Option.bind_some, Option.getD_some] at hspec
+        obtain ⟨_, st', he, hv, _, _, _, _⟩ :=
+          hsound s1.b.code.locals (List.prefix_refl _) { w := w, L := fun _ => none, trace := [] } { w := w } sst' val
+            rfl rfl hw hse
+        have hinit : ∀ c : CodeBody, initLocals c [] = fun _ => none := by
+          intro c
+          funext n
+          simp [initLocals]
+        simp only [IrSem.bindingValue, IrSem.run, hinit, hvb, List.set_cons_zero, List.length_cons, List.length_nil,
+          runFrom, List.getElem?_cons_zero, hvl, he, evalOperand_ensure, hv, Option.map_some, Option.bind_some]
+        exact hspec
+
 /-! ### non-vacuity -/
+
+/-- `-a.i % 2 < b.j` is in the straight-line fragment (given that `a`, `b` are object ids with those properties) -/
+example (wc : QV.Model.Ctx) (ci : ClassInfo) (pi pj : PropInfo)
+    (ha : wc.objects.find? (·.1 = "a") = some ("a", "VBase")) (hb : wc.objects.find? (·.1 = "b") = some ("b", "VBase"))
+    (hc : wc.env.findClass "VBase" = some ci) (hi : ci.props.find? (·.name = "i") = some pi)
+    (hj : ci.props.find? (·.name = "j") = some pj) (hti : pi.ty ≠ .void) (htj : pj.ty ≠ .void) :
+    Straight wc (.binary .lessThan (.binary .rem (.unary .minus (.member (.ident "a") "i")) (.integer 2))
+      (.member (.ident "b") "j")) :=
+  .binary _ (.cmp .lt) _ _ rfl (by intro l h; cases h)
+    (.binary _ (.arith .rem) _ _ rfl (by intro l h; cases h)
+      (.unary _ _ (.read "a" "i" "VBase" ci pi ha hc hi hti)) (.int 2))
+    (.read "b" "j" "VBase" ci pj hb hc hj htj)
 
 /-- a world and contexts in which the partial theorem applies and yields a concrete value -/
 example : QV.Spec.Sem.arithInt .rem (-7) 2 = some (.int (-1)) ∧ QV.Spec.Sem.arithInt .div (-7) 2 = some (.int (-3)) ∧
